@@ -275,6 +275,60 @@ fn scenes() -> Vec<Scene> {
 				Built { m, _keep: vec![Box::new(s)], stream: None }
 			},
 		},
+		Scene {
+			name: "DC sound whose volume follows a tweener that ran a 10.3 ms tween and has come to rest",
+			exact: true,
+			long_only: false,
+			build: |ibs| {
+				use kira::modulator::tweener::TweenerBuilder;
+				let mut m = rig::manager(SR, ibs, rig::caps(4), MainTrackBuilder::new());
+				let mut tw = m.add_modulator(TweenerBuilder { initial_value: 0.0 }).unwrap();
+				let vol: Value<kira::Decibels> = Value::FromModulator {
+					id: tw.id(),
+					mapping: kira::Mapping { input_range: (0.0, 1.0), output_range: (kira::Decibels(-12.0), kira::Decibels(0.0)), easing: kira::Easing::Linear },
+				};
+				let s = m.play(rig::static_data(SR, rig::dc_frames(4, 0.5)).loop_region(Region::from(..)).volume(vol)).unwrap();
+				// history: the tween (82.4 frames: never a whole number of internal buffers) runs to its end and two buffers beyond
+				tw.set(0.5, kira::Tween { duration: Duration::from_micros(10_300), ..Default::default() });
+				let n = ibs.min(4096);
+				let mut buf = vec![0.0f32; 2 * n];
+				let mut done = 0;
+				while done < 83 + 2 * n {
+					rig::callback(&mut m, &mut buf, n, 2);
+					done += n;
+				}
+				Built { m, _keep: vec![Box::new(s), Box::new(tw)], stream: None }
+			},
+		},
+		Scene {
+			name: "2-frame burst on a sub-track with a 3-frame feedback delay that is also routed to a send track",
+			exact: false,
+			long_only: false,
+			build: |ibs| {
+				let mut m = rig::manager(SR, ibs, rig::caps(4), MainTrackBuilder::new());
+				let send = m.add_send_track(SendTrackBuilder::new().volume(-3.0)).unwrap();
+				let mut t = m
+					.add_sub_track(TrackBuilder::new().with_effect(DelayBuilder::new().delay_time(Duration::from_micros(375)).feedback(-2.0)).with_send(&send, -1.0))
+					.unwrap();
+				let s = t.play(noise_sound(2)).unwrap();
+				Built { m, _keep: vec![Box::new(send), Box::new(t), Box::new(s)], stream: None }
+			},
+		},
+		Scene {
+			name: "2-frame burst on a nested sub-track with a 20-frame feedback delay, parent routed to a send track with a filter",
+			exact: false,
+			long_only: false,
+			build: |ibs| {
+				let mut m = rig::manager(SR, ibs, rig::caps(4), MainTrackBuilder::new());
+				let send = m.add_send_track(SendTrackBuilder::new().with_effect(FilterBuilder::new().cutoff(900.0))).unwrap();
+				let mut p = m.add_sub_track(TrackBuilder::new().with_send(&send, 0.0)).unwrap();
+				let mut t = p
+					.add_sub_track(TrackBuilder::new().with_effect(DelayBuilder::new().delay_time(Duration::from_micros(2500)).feedback(-2.0)).with_send(&send, -6.0))
+					.unwrap();
+				let s = t.play(noise_sound(2)).unwrap();
+				Built { m, _keep: vec![Box::new(send), Box::new(p), Box::new(t), Box::new(s)], stream: None }
+			},
+		},
 		fx!("reverb", false, true, ReverbBuilder::new().feedback(0.8).damping(0.3).stereo_width(0.5)),
 		fx!("compressor", false, false, CompressorBuilder::new().threshold(-30.0).ratio(4.0).attack_duration(Duration::from_micros(500)).release_duration(Duration::from_millis(2))),
 		fx!("distortion soft clip +12 dB", true, false, DistortionBuilder::new().kind(DistortionKind::SoftClip).drive(12.0)),
